@@ -820,18 +820,32 @@ class Manager:
         if code is not None:
             self._exit_code = code
 
+    def _step(self, event, advance, *args):
+        """
+        Run one step of a suspended handler of *event*.  While it runs, the
+        event counts as the one being handled, exactly as in the dispatcher,
+        so that events it fires are tracked as effects of *event* (complete).
+        """
+        handling, self._currently_handling = self._currently_handling, event
+        flushing, self._flushing_thread = self._flushing_thread, current_thread()
+        try:
+            return advance(*args)
+        finally:
+            self._currently_handling = handling
+            self._flushing_thread = flushing
+
     def processTask(self, event, task, parent=None):  # noqa
         # TODO: C901: This has a high McCabe complexity score of 16.
         # TODO: Refactor this method.
 
         value = None
         try:
-            value = next(task)
+            value = self._step(event, next, task)
             if isinstance(value, CallValue):
                 # Done here, next() will StopIteration anyway
                 self.unregisterTask((event, task, parent))
                 # We are in a callEvent
-                value = parent.send(value.value)
+                value = self._step(event, parent.send, value.value)
                 if isinstance(value, GeneratorType):
                     # We loose a yield but we gain one,
                     # we don't need to change
@@ -839,7 +853,7 @@ class Manager:
                     # The below code is delegated to handlers
                     # in the waitEvent generator
                     # self.registerTask((event, value, parent))
-                    task_state = next(value)
+                    task_state = self._step(event, next, value)
                     task_state.task_event = event
                     task_state.task = value
                     task_state.parent = parent
@@ -852,7 +866,7 @@ class Manager:
                 event.waitingHandlers += 1
                 self.unregisterTask((event, task, None))
                 # First yielded value is always the task state
-                task_state = next(value)
+                task_state = self._step(event, next, value)
                 task_state.task_event = event
                 task_state.task = value
                 task_state.parent = task
@@ -863,11 +877,11 @@ class Manager:
             elif isinstance(value, ExceptionWrapper):
                 self.unregisterTask((event, task, parent))
                 if parent:
-                    value = parent.throw(value.extract())
+                    value = self._step(event, parent.throw, value.extract())
                     # the handler caught the exception and goes on: treat
                     # what it yields next like after a normal resumption
                     if isinstance(value, GeneratorType):
-                        task_state = next(value)
+                        task_state = self._step(event, next, value)
                         task_state.task_event = event
                         task_state.task = value
                         task_state.parent = parent
